@@ -69,6 +69,16 @@ CHECKS = {
                 "ymin<=ymax assumed; at most 400 decisions per path (never hit)",
         "technique": "symbolic execution of the Python source on z3 real terms + SMT (QF_NRA) obligations per path, counterexample replay",
     },
+    "C16": {
+        "text": "The variable, nickname and motor-enable helpers run through the real command/query code against a simulated board whose "
+                "state is symbolic (RAM = z3 array with arbitrary contents; mode, motor flags, single-motor option arbitrary; nickname "
+                "symbolic string). Replies carry numbers as tokens, so what the library parses back is a term: the int32 round trip, "
+                "big-endian byte layout, untouched other slots, trimmed nickname and the motor-state/mode clauses are proved for all "
+                "values and all prior board states at once (one inductive step per operation).",
+        "note": "the board model (class Board in checks/c16.py, transcribed from the docstrings/EBB reference) is the trusted base; "
+                "int.to_bytes/from_bytes stubbed as div/mod terms and differentially tested against CPython each run; ASCII nicknames <= 4 chars",
+        "technique": "symbolic execution of the Python source against a symbolic-state device model (z3 arrays, integer terms, token strings) + SMT obligations per path, counterexample replay",
+    },
     "C18": {
         "text": "Bounded-free symbolic execution of the four limit helpers over unbounded reals; every path's result, range "
                 "membership and flag are proved equal to the clamp/outlier specification by z3 (QF_LRA, unsat = holds for "
